@@ -48,12 +48,20 @@ def tokenise(text, respell):
             continue
         words = raw.split()
         toks = []
+        # entries of a FILL array on a cell card: the integers that follow the last i:j range
+        arr = set()
+        if block == 0 and not first:
+            last_range = max([k for k, w in enumerate(words) if re.match(r'^(\*?fill=)?-?\d+:-?\d+$', w.lower())], default=-1)
+            k = last_range + 1
+            while last_range >= 0 and k < len(words) and re.match(r'^\d+$', words[k]):
+                arr.add(k)
+                k += 1
         for j, w in enumerate(words):
             lw = w.lower()
             alts = number_alts(lw) if (not first and NUM.match(lw) and respell(block, [x.lower() for x in words], j)) else []
             toks.append({'id': lw, 'w': lw, 'alts': alts, 'rep': 0, 'ok': bool(not first and j >= 2),
                          'val': int(lw) if re.match(r'^-?\d+$', lw) and abs(int(lw)) < 10000 else 0,
-                         'kind': '', 'n': 0, 'exp': [], 'jok': bool(j == 0 and re.match(r'^tr\d+$', lw) and len(words) == 13
+                         'kind': '', 'n': 0, 'exp': [], 'arr': bool(j in arr), 'jok': bool(j == 0 and re.match(r'^tr\d+$', lw) and len(words) == 13
                                                                     and tr_row_is_default(words))})
         lines.append({'kind': 'text', 'lead': [], 'toks': toks, 'seps': [['b'] for _ in toks[1:]], 'amp': False,
                       'dollar': False, 'upper': False, 'frozen': first})
